@@ -250,6 +250,35 @@ theorem noClose_dropFirstNL (n : Nat) (body : Bytes) (h : noClose n body = true)
     · exact noClose_nlRest n b r (noClose_tail n b r h)
     · exact h
 
+/-- the body of a long bracket behind its opening bracket: first line terminator dropped, the others normalised. -/
+theorem ml_body_full (n : Nat) (body r : Bytes) (hnc : noClose n body = true) (buf : Buf) (s3 : Sc)
+    (e2 : s3.rest = body ++ (closer n ++ r)) :
+    ∃ s', scanMultilineBody n buf s3 = .ok (buf ++ normNL (dropFirstNL body), s') ∧ s'.rest = r := by
+  have hcl : HeadNot LexSpec.isNewline (closer n ++ r) := HeadNot.cons _ _ _ (by decide)
+  unfold scanMultilineBody
+  simp only []
+  cases body with
+  | nil =>
+    simp only [List.nil_append] at e2
+    obtain ⟨f1, _, _⟩ := next_of_rest s3 93 _ (by rw [e2]; rfl) (by unfold Plain; decide)
+    rw [if_neg (by rw [f1]; decide)]
+    obtain ⟨s', h1, h2⟩ := mlLoop_body n r 0 [] buf s3 (Nat.le_refl _) hnc (by simpa using e2)
+    exact ⟨s', by simpa [dropFirstNL] using h1, h2⟩
+  | cons b body' =>
+    have e2' : s3.rest = b :: (body' ++ (closer n ++ r)) := by rw [e2]; rfl
+    by_cases hnl : b = 10 ∨ b = 13
+    · obtain ⟨f1, f2⟩ := next_nl_exact s3 b _ e2' hnl
+      rw [nlRest_append b body' _ hcl] at f2
+      rw [if_pos (Or.inl f1)]
+      obtain ⟨s', h1, h2⟩ := mlLoop_body n r _ (nlRest b body') buf (next s3).2 (Nat.le_refl _)
+        (noClose_nlRest n b body' (noClose_tail n b body' hnc)) f2
+      exact ⟨s', by simpa [dropFirstNL, hnl] using h1, h2⟩
+    · have hp : Plain b := ⟨fun h => hnl (Or.inl h), fun h => hnl (Or.inr h)⟩
+      obtain ⟨f1, _, _⟩ := next_of_rest s3 b _ e2' hp
+      rw [if_neg (by rw [f1]; exact plain_toNat b hp)]
+      obtain ⟨s', h1, h2⟩ := mlLoop_body n r _ (b :: body') buf s3 (Nat.le_refl _) hnc e2
+      exact ⟨s', by simpa [dropFirstNL, hnl] using h1, h2⟩
+
 /-- **long brackets of any level, any content**: with the scanner just past the first `[`, the text
     `=ⁿ[ body ]=ⁿ] r` is read as `body` without its first line terminator and with the others normalised to LF;
     scanning stops right behind the closing bracket. -/
@@ -259,31 +288,10 @@ theorem long_bracket_full (n : Nat) (body r : Bytes) (hnc : noClose n body = tru
       s'.rest = r := by
   obtain ⟨s2, g1, g2⟩ := countSep_run (91 :: (body ++ (closer n ++ r))) (HeadNot.cons _ _ _ (by decide)) n s hs
   obtain ⟨e1, e2, _⟩ := next_of_rest s2 91 _ g1 (by unfold Plain; decide)
-  have hcl : HeadNot LexSpec.isNewline (closer n ++ r) := HeadNot.cons _ _ _ (by decide)
   unfold scanMultilineString
   simp only [g2]
   rw [if_neg (by rw [e1]; decide)]
-  cases body with
-  | nil =>
-    simp only [List.nil_append] at e2
-    obtain ⟨f1, _, _⟩ := next_of_rest (next s2).2 93 _ (by rw [e2]; rfl) (by unfold Plain; decide)
-    rw [if_neg (by rw [f1]; decide)]
-    obtain ⟨s', h1, h2⟩ := mlLoop_body n r 0 [] buf (next s2).2 (Nat.le_refl _) hnc (by simpa using e2)
-    exact ⟨s', by simpa [dropFirstNL] using h1, h2⟩
-  | cons b body' =>
-    have e2' : (next s2).2.rest = b :: (body' ++ (closer n ++ r)) := by rw [e2]; rfl
-    by_cases hnl : b = 10 ∨ b = 13
-    · obtain ⟨f1, f2⟩ := next_nl_exact (next s2).2 b _ e2' hnl
-      rw [nlRest_append b body' _ hcl] at f2
-      rw [if_pos (Or.inl f1)]
-      obtain ⟨s', h1, h2⟩ := mlLoop_body n r _ (nlRest b body') buf (next (next s2).2).2 (Nat.le_refl _)
-        (noClose_nlRest n b body' (noClose_tail n b body' hnc)) f2
-      exact ⟨s', by simpa [dropFirstNL, hnl] using h1, h2⟩
-    · have hp : Plain b := ⟨fun h => hnl (Or.inl h), fun h => hnl (Or.inr h)⟩
-      obtain ⟨f1, _, _⟩ := next_of_rest (next s2).2 b _ e2' hp
-      rw [if_neg (by rw [f1]; exact plain_toNat b hp)]
-      obtain ⟨s', h1, h2⟩ := mlLoop_body n r _ (b :: body') buf (next s2).2 (Nat.le_refl _) hnc e2
-      exact ⟨s', by simpa [dropFirstNL, hnl] using h1, h2⟩
+  exact ml_body_full n body r hnc buf (next s2).2 e2
 
 /-! ### long strings as tokens -/
 
@@ -316,17 +324,14 @@ theorem peek_eqs_bracket (n : Nat) (X : Bytes) (s : Sc) (hs : s.rest = List.repl
   | zero => left; rw [peek_cons s 91 X (by simpa using hs)]; rfl
   | succ k => right; rw [peek_cons s 61 (List.replicate k 61 ++ 91 :: X) (by rw [hs, List.replicate_succ]; rfl)]; rfl
 
-theorem tokScan_lstr (level : Nat) (first content : Bytes) (hwf : (RTok.lstr level first content).wf = true)
-    (r : Bytes) : TokScan (.lstr level first content) r := by
+/-- a well-formed long string token: no closing bracket starts inside `first ++ content`, and that body denotes
+    `content` (the first line end is skipped, the content has no CR). -/
+theorem lstr_body_facts (level : Nat) (first content : Bytes) (hwf : (RTok.lstr level first content).wf = true) :
+    noClose level (first ++ content) = true ∧ normNL (dropFirstNL (first ++ content)) = content := by
   simp only [RTok.wf, Bool.and_eq_true, Bool.or_eq_true, Bool.not_eq_true', bne_iff_ne, ne_eq] at hwf
   obtain ⟨⟨⟨hfirst, hcr⟩, hhead⟩, hnc⟩ := hwf
   have hf : first = [] ∨ first = [10] ∨ first = [13] ∨ first = [13, 10] ∨ first = [10, 13] := by
     simpa [lineEndSpellings] using hfirst
-  refine ⟨91, List.replicate level 61 ++ 91 :: (first ++ (content ++ closer level)), rfl, by decide,
-    Or.inl (by decide), ?_⟩
-  intro s hs
-  have hs' : s.rest = List.replicate level 61 ++ 91 :: ((first ++ content) ++ (closer level ++ r)) := by
-    rw [hs]; simp
   -- the body is `first ++ content`; it denotes `content`
   have hnc' : noClose level (first ++ content) = true := by
     rcases hf with rfl | rfl | rfl | rfl | rfl <;> simp [noClose, closesAt, hnc]
@@ -366,6 +371,16 @@ theorem tokScan_lstr (level : Nat) (first content : Bytes) (hwf : (RTok.lstr lev
       simpa using hn
     · simp only [List.cons_append, List.nil_append, dropFirstNL, true_or, if_true, nlRest]
       simpa using hn
+  exact ⟨hnc', hden⟩
+
+theorem tokScan_lstr (level : Nat) (first content : Bytes) (hwf : (RTok.lstr level first content).wf = true)
+    (r : Bytes) : TokScan (.lstr level first content) r := by
+  obtain ⟨hnc', hden⟩ := lstr_body_facts level first content hwf
+  refine ⟨91, List.replicate level 61 ++ 91 :: (first ++ (content ++ closer level)), rfl, by decide,
+    Or.inl (by decide), ?_⟩
+  intro s hs
+  have hs' : s.rest = List.replicate level 61 ++ 91 :: ((first ++ content) ++ (closer level ++ r)) := by
+    rw [hs]; simp
   obtain ⟨s', h1, h2⟩ := long_bracket_full level (first ++ content) r hnc' [] s hs'
   refine ⟨s', ?_, h2⟩
   have e91 : ((91 : UInt8).toNat : Int) = 91 := rfl
@@ -383,12 +398,17 @@ theorem commentScan_long (level : Nat) (content : Bytes) (hwf : (Sep.long level 
     rw [hs]; simp
   have hp := peek_cons s 91 _ hs'
   obtain ⟨e1, e2, _⟩ := next_of_rest s 91 _ hs' (by unfold Plain; decide)
-  obtain ⟨s', h1, h2⟩ := long_bracket_full level content r hnc [] (next s).2 e2
+  obtain ⟨s2, g1, g2⟩ := countSep_run (91 :: (content ++ (closer level ++ r))) (HeadNot.cons _ _ _ (by decide)) level
+    (next s).2 e2
+  obtain ⟨k1, k2, _⟩ := next_of_rest s2 91 _ g1 (by unfold Plain; decide)
+  obtain ⟨s', h1, h2⟩ := ml_body_full level content r hnc [] (next s2).2 k2
   refine ⟨s', ?_, Or.inl h2⟩
   unfold skipComments
   rw [if_pos (by rw [hp]; rfl)]
   simp only []
-  rw [if_pos (peek_eqs_bracket level _ (next s).2 e2), h1]
+  rw [if_pos (peek_eqs_bracket level _ (next s).2 e2), g2]
+  simp only []
+  rw [if_pos (by rw [k1]; rfl), h1]
 
 theorem lineCommentLoop_stop (ch : Int) (s : Sc) (h : ch = 10 ∨ ch = 13 ∨ ch < 0) : lineCommentLoop ch s = s := by
   rw [lineCommentLoop]; simp only [h, if_true]
@@ -429,16 +449,60 @@ theorem lineCommentLoop_run (R : Bytes) :
     exact ih (c.toNat : Int) (next s).2 (by simpa using ht.2)
       (by have := plain_toNat c hc; omega) e2
 
-/-- the known deviation `C08-short-comment-bracket-eq`: a short comment whose text starts with `[=`. -/
-def bracketEq (x : Sep) : Bool :=
-  match x with
-  | .short (91 :: 61 :: _) _ => true
-  | _ => false
-
 def eolBytes (eol : Option UInt8) : Bytes := match eol with | some e => [e] | none => []
 
+theorem longOpen_bracket_none (t' : Bytes) :
+    LexSpec.longOpen (91 :: t') = none ↔ ∀ r', t'.dropWhile (fun c => c == 61) ≠ 91 :: r' := by
+  unfold LexSpec.longOpen
+  simp only []
+  split
+  · rename_i r' heq
+    constructor
+    · intro h; simp at h
+    · intro h; exact absurd heq (h r')
+  · rename_i hne
+    constructor
+    · intro _ r' e; exact hne r' e
+    · intro _; rfl
+
+/-- a text that starts with `[` and is not the opening of a long bracket: `[`, some `=`, then a byte that is neither
+    `=` nor `[` (or nothing). -/
+theorem longOpen_none_shape : ∀ text' : Bytes, LexSpec.longOpen (91 :: text') = none →
+    ∃ k t'', text' = List.replicate k 61 ++ t'' ∧ HeadNot (fun c => c == 61 || c == 91) t'' := by
+  intro text'
+  induction text' with
+  | nil => intro _; exact ⟨0, [], rfl, HeadNot.nil _⟩
+  | cons c t ih =>
+    intro h
+    by_cases hc : c = 61
+    · subst hc
+      have : LexSpec.longOpen (91 :: t) = none := by
+        rw [longOpen_bracket_none] at h ⊢
+        intro r' e
+        exact h r' (by rw [List.dropWhile_cons_of_pos (by simp)]; exact e)
+      obtain ⟨k, t'', h1, h2⟩ := ih this
+      exact ⟨k + 1, t'', by rw [h1, List.replicate_succ]; rfl, h2⟩
+    · refine ⟨0, c :: t, rfl, HeadNot.cons _ _ _ ?_⟩
+      have hc91 : c ≠ 91 := by
+        intro e; subst e
+        rw [longOpen_bracket_none] at h
+        exact h t (by rw [List.dropWhile_cons_of_neg (by decide)])
+      simp [hc, hc91]
+
+theorem next_ne_91 (s : Sc) (R : Bytes) (hs : s.rest = R) (hR : HeadNot (fun c => c == 91) R) : ¬ (next s).1 = 91 := by
+  cases R with
+  | nil => rw [(next_nil s hs).1]; decide
+  | cons c R' =>
+    have hc := hR c R' rfl
+    simp only [beq_eq_false_iff_ne, ne_eq] at hc
+    by_cases hnl : c = 10 ∨ c = 13
+    · rw [(next_nl_exact s c R' hs hnl).1]; decide
+    · have hp : Plain c := ⟨fun h => hnl (Or.inl h), fun h => hnl (Or.inr h)⟩
+      rw [(next_of_rest s c R' hs hp).1]
+      exact int_ne_of_ne c 91 hc
+
 theorem commentScan_short (text : Bytes) (eol : Option UInt8) (hwf : (Sep.short text eol).wf = true)
-    (hg : bracketEq (.short text eol) = false) (r : Bytes) (hr : (Sep.short text eol).openEnded = true → r = []) :
+    (r : Bytes) (hr : (Sep.short text eol).openEnded = true → r = []) :
     CommentScan (.short text eol) r := by
   simp only [Sep.wf, Bool.and_eq_true, Option.isNone_iff_eq_none] at hwf
   obtain ⟨⟨htext, heol⟩, hopen⟩ := hwf
@@ -452,6 +516,12 @@ theorem commentScan_short (text : Bytes) (eol : Option UInt8) (hwf : (Sep.short 
       right
       refine ⟨e, rfl, ?_⟩
       simpa [LexSpec.isNewline] using heol
+  have hXhead : HeadNot (fun c => c == 61 || c == 91) (eolBytes eol ++ r) := by
+    rcases hR with ⟨h1, h2⟩ | ⟨e, h1, h2⟩
+    · rw [h1, h2]; exact HeadNot.nil _
+    · rw [h1]
+      simp only [eolBytes, List.cons_append, List.nil_append]
+      exact HeadNot.cons _ _ _ (by rcases h2 with rfl | rfl <;> decide)
   have hs' : s.rest = text ++ (eolBytes eol ++ r) := by rw [hs]; simp
   -- the result of the loop, whatever character it is entered with
   have hloop : ∀ (text' : Bytes) (ch : Int) (s0 : Sc), text'.all (fun b => !LexSpec.isNewline b) = true →
@@ -478,20 +548,11 @@ theorem commentScan_short (text : Bytes) (eol : Option UInt8) (hwf : (Sep.short 
         · left; rfl
   unfold skipComments
   by_cases hp : peek s = 91
-  · -- the text starts with `[`: one more look-ahead
+  · -- the text starts with `[`: count the `=`s behind it
     cases text with
     | nil =>
       exfalso
-      cases eol with
-      | none =>
-        have : r = [] := hr rfl
-        rw [peek_nil s (by rw [hs', this]; rfl)] at hp; exact absurd hp (by decide)
-      | some e =>
-        rcases hR with ⟨h, _⟩ | ⟨e', h1, h2⟩
-        · exact absurd h (by simp)
-        · simp only [Option.some.injEq] at h1; subst h1
-          rw [peek_cons s e r (by rw [hs']; rfl)] at hp
-          rcases h2 with rfl | rfl <;> exact absurd hp (by decide)
+      exact peek_not s _ hs' _ hXhead 91 (by decide) hp
     | cons c text' =>
       have hsc : s.rest = c :: (text' ++ (eolBytes eol ++ r)) := by rw [hs']; rfl
       have hc91 : c = 91 := by
@@ -503,52 +564,45 @@ theorem commentScan_short (text : Bytes) (eol : Option UInt8) (hwf : (Sep.short 
       subst hc91
       simp only [List.all_cons, Bool.and_eq_true] at htext
       obtain ⟨e1, e2, _⟩ := next_of_rest s 91 _ hsc (by unfold Plain; decide)
+      have e1' : (next s).1 = 91 := by rw [e1]; rfl
       rw [if_pos hp]
       simp only []
-      have hnot : ¬ (peek (next s).2 = 91 ∨ peek (next s).2 = 61) := by
-        -- `[[` would be a long bracket, `[=` is the guarded class
-        cases text' with
-        | nil =>
-          cases eol with
-          | none =>
-            have : r = [] := hr rfl
-            rw [peek_nil _ (by rw [e2, this]; rfl)]; decide
-          | some e =>
-            rcases hR with ⟨h, _⟩ | ⟨e', h1, h2⟩
-            · exact absurd h (by simp)
-            · simp only [Option.some.injEq] at h1; subst h1
-              rw [peek_cons _ e r (by rw [e2]; rfl)]
-              rcases h2 with rfl | rfl <;> decide
-        | cons d text'' =>
-          rw [peek_cons _ d _ (by rw [e2]; rfl)]
-          have hd91 : d ≠ 91 := by
-            intro h; subst h
-            simp [LexSpec.longOpen, List.dropWhile, List.takeWhile] at hopen
-          have hd61 : d ≠ 61 := by
-            intro h; subst h
-            simp [bracketEq] at hg
-          intro h
-          rcases h with h | h
-          · exact int_ne_of_ne d 91 hd91 h
-          · exact int_ne_of_ne d 61 hd61 h
-      rw [if_neg hnot]
-      have e1' : (next s).1 = 91 := by rw [e1]; rfl
-      rw [e1']
-      exact ⟨_, rfl, hloop text' 91 (next s).2 htext.2 (by decide) e2⟩
+      by_cases hpk : peek (next s).2 = 91 ∨ peek (next s).2 = 61
+      · -- `[=…`: the `=`s are counted, and what follows them is not `[`
+        rw [if_pos hpk]
+        obtain ⟨k, t'', hsplit, ht''⟩ := longOpen_none_shape text' hopen
+        have hstop : HeadNot (fun c => c == 61 || c == 91) (t'' ++ (eolBytes eol ++ r)) := by
+          cases t'' with
+          | nil => simpa using hXhead
+          | cons y ys => exact HeadNot.cons _ _ _ (ht'' y ys rfl)
+        have h61 : HeadNot (fun c => c == 61) (t'' ++ (eolBytes eol ++ r)) :=
+          headNot_mono _ _ (fun c h => by simp only [beq_iff_eq] at h; simp [h]) _ hstop
+        have h91 : HeadNot (fun c => c == 91) (t'' ++ (eolBytes eol ++ r)) :=
+          headNot_mono _ _ (fun c h => by simp only [beq_iff_eq] at h; simp [h]) _ hstop
+        obtain ⟨s2, g1, g2⟩ := countSep_run _ h61 k (next s).2 (by rw [e2, hsplit]; simp)
+        rw [g2]
+        simp only []
+        rw [if_neg (next_ne_91 s2 _ g1 h91)]
+        have ht''all : t''.all (fun b => !LexSpec.isNewline b) = true := by
+          have := htext.2
+          rw [hsplit] at this
+          simp only [List.all_append, Bool.and_eq_true] at this
+          exact this.2
+        have := hloop t'' 45 s2 ht''all (by decide) g1
+        rw [lineCommentLoop_step 45 s2 (by decide)] at this
+        exact ⟨_, rfl, this⟩
+      · rw [if_neg hpk, e1']
+        exact ⟨_, rfl, hloop text' 91 (next s).2 htext.2 (by decide) e2⟩
   · rw [if_neg hp]
     exact ⟨_, rfl, hloop text 45 s htext (by decide) hs'⟩
 
-/-- every well-formed comment outside the guarded class is skipped exactly. -/
-theorem commentScan_all (x : Sep) (hwf : x.wf = true) (hg : bracketEq x = false) (hc : x.isComment = true)
+/-- every well-formed comment is skipped exactly. -/
+theorem commentScan_all (x : Sep) (hwf : x.wf = true) (hc : x.isComment = true)
     (r : Bytes) (hr : x.openEnded = true → r = []) : CommentScan x r := by
   cases x with
   | blank b => simp [Sep.isComment] at hc
-  | short text eol => exact commentScan_short text eol hwf hg r hr
+  | short text eol => exact commentScan_short text eol hwf r hr
   | long level content => exact commentScan_long level content hwf r
-
-/-- the layouts outside the guarded class: no short comment of the gaps 0 … n starts with `[=`. -/
-def noBracketEq (lay : Layout) (n : Nat) : Bool :=
-  (List.range (n + 1)).all (fun j => (lay j).all (fun x => !bracketEq x))
 
 /-- every well-formed token is scanned back (all token kinds). -/
 theorem tokScan_all (t : RTok) (hwf : t.wf = true) (r : Bytes) (hf : follow t r = true) : TokScan t r := by
@@ -559,42 +613,6 @@ theorem tokScan_all (t : RTok) (hwf : t.wf = true) (r : Bytes) (hf : follow t r 
   | num n => exact tokScan_num n hwf r hf
   | str q cs => exact tokScan_str q cs hwf r
   | lstr l f c => exact tokScan_lstr l f c hwf r
-
-/-! ### the witness of `C08-short-comment-bracket-eq`: `--[=` + line feed -/
-
-theorem skipComments_bracketEq_err (ch : Int) (s : Sc) (hs : s.rest = [91, 61, 10]) :
-    ∃ e, skipComments ch s = .error e := by
-  have hp := peek_cons s 91 _ hs
-  obtain ⟨_, e2, _⟩ := next_of_rest s 91 _ hs (by unfold Plain; decide)
-  have hp2 := peek_cons (next s).2 61 _ e2
-  obtain ⟨f1, f2, _⟩ := next_of_rest (next s).2 61 _ e2 (by unfold Plain; decide)
-  obtain ⟨g1, _⟩ := next_nl_exact (next (next s).2).2 10 [] f2 (Or.inl rfl)
-  have f1' : (next (next s).2).1 = 61 := by rw [f1]; rfl
-  have hcs : (countSep 61 (next (next s).2).2).2.1 = 10 := by
-    rw [countSep_eq, g1, countSep_ne _ _ (by decide)]
-  have hml : ∃ e, scanMultilineString (next (next s).2).1 [] (next (next s).2).2 = .error e := by
-    unfold scanMultilineString
-    simp only [f1', hcs]
-    exact ⟨_, by rw [if_pos (by decide)]⟩
-  obtain ⟨e, he⟩ := hml
-  unfold skipComments
-  rw [if_pos (by rw [hp]; rfl)]
-  simp only []
-  rw [if_pos (Or.inr (by rw [hp2]; rfl)), he]
-  exact ⟨_, rfl⟩
-
-theorem lex_bracketEq_witness : (lex [45, 45, 91, 61, 10]).err ≠ none := by
-  obtain ⟨h1, h2⟩ := skipBlanks_run [] (by simp) 45 [45, 91, 61, 10] (by unfold Plain; decide) (by decide) (by decide)
-    (initSc [45, 45, 91, 61, 10]) rfl
-  have hp := peek_cons _ 45 _ h2
-  obtain ⟨_, e2, _⟩ := next_of_rest _ 45 _ h2 (by unfold Plain; decide)
-  obtain ⟨e, he⟩ := skipComments_bracketEq_err
-    (next (skipBlanks (initSc [45, 45, 91, 61, 10])).2.1).1 _ e2
-  have hs := scan_comment_err 0 (initSc [45, 45, 91, 61, 10]) e ⟨by rw [h1]; rfl, by rw [hp]; rfl⟩ he
-  obtain ⟨_, h⟩ := lexAll_err 0 _ e hs
-  unfold lex
-  rw [h]
-  simp
 
 /-! ### long string contents -/
 
